@@ -3,10 +3,12 @@
   strings, the `chan` / `CHAN` chunk and the channel-layout table.
 
   Code-shaped model of
-    src/aiff.c     aiff_write_strings (APPL/m3ga, NAME, (c), AUTH, ANNO), the readers of those chunks in aiff_read_header
-                   (8 KiB scratch buffer, psf_sanitize_string on (c), the printable prefix of APPL), the MARK writer
+    src/aiff.c     aiff_write_strings (APPL/m3ga, NAME, (c), AUTH, ANNO), the readers of those chunks in aiff_read_header /
+                   aiff_read_text_chunk (buffer allocated from the chunk size since the repair, 8 KiB scratch buffer before;
+                   psf_sanitize_string on (c), the printable prefix of APPL), the MARK writer
                    (pascal strings of the 'p' format) and reader, the CHAN chunk and aiff_read_chanmap
-    src/caf.c      caf_write_strings / put_key_value (16 KiB buffer), caf_read_strings, the chan chunk and caf_read_chanmap
+    src/caf.c      caf_write_strings / put_key_value (buffer allocated from the string storage since the repair, 16 KiB before),
+                   caf_read_strings, the chan chunk and caf_read_chanmap
     src/chanmap.c  aiff_caf_find_channel_layout_tag, aiff_caf_of_channel_layout_tag over the table extracted from the
                    source into Generated/ChanMap.lean
     src/common.c   the 'S' and 'p' cases of psf_binheader_writef
@@ -50,23 +52,41 @@ def sanitize (s : List Byte) : List Byte := s.map fun b => if isPrint b then b e
 /-- the APPL reader: the text ends at the first byte that is not printable -/
 def printablePrefix (s : List Byte) : List Byte := s.takeWhile isPrint
 
-/-- what a text chunk hands to psf_store_string.  `none`: nothing is stored (empty chunk, or too big for the scratch buffer:
-    skipped since the repair). -/
-def aiffReadText (m : List Byte) (size : Nat) (payload : List Byte) : Option (Nat × List Byte) :=
+/-- the chunk sizes from which on a text chunk is skipped instead of read -/
+structure AiffLimits where
+  c    : Nat
+  auth : Nat
+  name : Nat
+  anno : Nat
+  appl : Nat
+deriving DecidableEq, Repr
+
+/-- since the repair ("fix: AIFF strings of 8 KiB or more could be written but not read back"): the text is read into a buffer
+    allocated from the chunk size; only `chunk_size > 100 * 1024` (more than the header cache holds) is skipped -/
+def aiffLimits : AiffLimits := ⟨HEADER_CAP + 1, HEADER_CAP + 1, HEADER_CAP + 1, HEADER_CAP + 1, HEADER_CAP + 1⟩
+
+/-- before it: the 8 KiB scratch union, `chunk_size >= sizeof (ubuf.scbuf) - slack` -/
+def aiffLimitsOld : AiffLimits := ⟨SCRATCH, SCRATCH - 1, SCRATCH - 2, SCRATCH - 2, SCRATCH - 1⟩
+
+/-- what a text chunk hands to psf_store_string.  `none`: nothing is stored (empty chunk, or beyond the limit: skipped). -/
+def aiffReadTextW (L : AiffLimits) (m : List Byte) (size : Nat) (payload : List Byte) : Option (Nat × List Byte) :=
   if size = 0 then none
-  else if m = mk "(c) " then (if size ≥ SCRATCH then none else some (2, cstr (sanitize (payload.take size))))
-  else if m = mk "AUTH" then (if size ≥ SCRATCH - 1 then none else some (4, cstr (payload.take size)))
-  else if m = mk "NAME" then (if size ≥ SCRATCH - 2 then none else some (1, cstr (payload.take size)))
-  else if m = mk "ANNO" then (if size ≥ SCRATCH - 2 then none else some (5, cstr (payload.take size)))
+  else if m = mk "(c) " then (if size ≥ L.c then none else some (2, cstr (sanitize (payload.take size))))
+  else if m = mk "AUTH" then (if size ≥ L.auth then none else some (4, cstr (payload.take size)))
+  else if m = mk "NAME" then (if size ≥ L.name then none else some (1, cstr (payload.take size)))
+  else if m = mk "ANNO" then (if size ≥ L.anno then none else some (5, cstr (payload.take size)))
   else if m = mk "APPL" then
-    (if size ≥ SCRATCH - 1 ∨ size < 4 then none else some (3, printablePrefix (cstr ((payload.drop 4).take (size - 4)))))
+    (if size ≥ L.appl ∨ size < 4 then none else some (3, printablePrefix (cstr ((payload.drop 4).take (size - 4)))))
   else none
+
+def aiffReadText : List Byte → Nat → List Byte → Option (Nat × List Byte) := aiffReadTextW aiffLimits
+def aiffReadTextOld : List Byte → Nat → List Byte → Option (Nat × List Byte) := aiffReadTextW aiffLimitsOld
 
 def isAiffText (m : List Byte) : Bool := m = mk "(c) " || m = mk "AUTH" || m = mk "NAME" || m = mk "ANNO" || m = mk "APPL"
 
 /-- the chunk walk of aiff_read_header restricted to text chunks (the walk of the whole header is SfModel.Aiff): marker, size,
     payload, pad byte of an odd size.  Any other marker ends this walk. -/
-def aiffParse : Nat → List Byte → List (Nat × List Byte)
+def aiffParseW (L : AiffLimits) : Nat → List Byte → List (Nat × List Byte)
   | 0, _ => []
   | fuel+1, b =>
     if b.length < 8 then []
@@ -77,15 +97,29 @@ def aiffParse : Nat → List Byte → List (Nat × List Byte)
       if !isAiffText m ∨ size > p.length then []
       else
         let rest := p.drop (size + size % 2)
-        match aiffReadText m size p with
-        | some e => e :: aiffParse fuel rest
-        | none => aiffParse fuel rest
+        match aiffReadTextW L m size p with
+        | some e => e :: aiffParseW L fuel rest
+        | none => aiffParseW L fuel rest
 
-/-- the limits under which an AIFF text survives -/
+def aiffParse : Nat → List Byte → List (Nat × List Byte) := aiffParseW aiffLimits
+def aiffParseOld : Nat → List Byte → List (Nat × List Byte) := aiffParseW aiffLimitsOld
+
+/-- the limits under which an AIFF text survives, for a reader with the skip thresholds `L` -/
+def aiffOkW (L : AiffLimits) (e : Nat × List Byte) : Prop :=
+  (∀ b ∈ e.2, b ≠ 0) ∧ e.2 ≠ [] ∧ e.2.length + 4 < 2 ^ 32 ∧
+  ((e.1 = 1 ∧ e.2.length < L.name) ∨ (e.1 = 5 ∧ e.2.length < L.anno) ∨ (e.1 = 4 ∧ e.2.length < L.auth) ∨
+   (e.1 = 2 ∧ e.2.length < L.c ∧ ∀ b ∈ e.2, isPrint b = true) ∨ (e.1 = 3 ∧ e.2.length + 4 < L.appl ∧ ∀ b ∈ e.2, isPrint b = true))
+
+/-- what an AIFF text must be to survive since the repair: a non-empty C string whose chunk the header cache can hold
+    (`HEADER_CAP`); copyright and software printable ASCII (the `(c)` reader sanitises, the APPL reader stops at the first other
+    byte: known finding KF.aiffSanitize).  No 8 KiB limit any more. -/
 def aiffOk (e : Nat × List Byte) : Prop :=
   (∀ b ∈ e.2, b ≠ 0) ∧ e.2 ≠ [] ∧
-  ((e.1 = 1 ∧ e.2.length < SCRATCH - 2) ∨ (e.1 = 5 ∧ e.2.length < SCRATCH - 2) ∨ (e.1 = 4 ∧ e.2.length < SCRATCH - 1) ∨
-   (e.1 = 2 ∧ e.2.length < SCRATCH ∧ ∀ b ∈ e.2, isPrint b = true) ∨ (e.1 = 3 ∧ e.2.length + 4 < SCRATCH - 1 ∧ ∀ b ∈ e.2, isPrint b = true))
+  ((e.1 = 1 ∧ e.2.length ≤ HEADER_CAP) ∨ (e.1 = 5 ∧ e.2.length ≤ HEADER_CAP) ∨ (e.1 = 4 ∧ e.2.length ≤ HEADER_CAP) ∨
+   (e.1 = 2 ∧ e.2.length ≤ HEADER_CAP ∧ ∀ b ∈ e.2, isPrint b = true) ∨ (e.1 = 3 ∧ e.2.length + 4 ≤ HEADER_CAP ∧ ∀ b ∈ e.2, isPrint b = true))
+
+/-- the limits of the old reader: title / comment < 8190 bytes, author < 8191, copyright < 8192, software + 4 < 8191 -/
+def aiffOkOld (e : Nat × List Byte) : Prop := aiffOkW aiffLimitsOld e
 
 /-- the APPL reader before the repair: the buffer was terminated 4 bytes behind the text, so up to four bytes of whatever an
     earlier chunk had left there (`stale`) followed it -/
@@ -154,21 +188,28 @@ def cafType (key : List Byte) : Option Nat :=
 
 def CAF_BUF : Nat := 16 * 1024
 
-/-- put_key_value over the entries in slot order: (bytes collected, number of strings put).  An entry that does not fit the
-    16 KiB buffer is skipped silently. -/
-def cafPut : List Byte → Nat → List (Nat × List Byte) → List Byte × Nat
+/-- put_key_value over the entries in slot order, for a buffer of `cap` bytes: (bytes collected, number of strings put).
+    An entry that does not fit the buffer is skipped silently. -/
+def cafPut (cap : Nat) : List Byte → Nat → List (Nat × List Byte) → List Byte × Nat
   | buf, cnt, [] => (buf, cnt)
   | buf, cnt, e :: rest =>
     match cafKey e.1 with
-    | none => cafPut buf cnt rest
+    | none => cafPut cap buf cnt rest
     | some k =>
-      if buf.length + k.length + e.2.length + 2 > CAF_BUF ∨ buf.length + (k.length + e.2.length + 2) ≥ CAF_BUF then cafPut buf cnt rest
-      else cafPut (buf ++ k ++ [0] ++ e.2 ++ [0]) (cnt + 1) rest
+      if buf.length + k.length + e.2.length + 2 > cap ∨ buf.length + (k.length + e.2.length + 2) ≥ cap then cafPut cap buf cnt rest
+      else cafPut cap (buf ++ k ++ [0] ++ e.2 ++ [0]) (cnt + 1) rest
 
-/-- caf_write_strings: the `info` chunk (nothing when no string was put) -/
-def writeCafInfo (es : List (Nat × List Byte)) : List Byte :=
-  let r := cafPut [] 0 es
+/-- caf_write_strings with a buffer of `cap` bytes: the `info` chunk (nothing when no string was put) -/
+def writeCafInfoW (cap : Nat) (es : List (Nat × List Byte)) : List Byte :=
+  let r := cafPut cap [] 0 es
   if r.2 = 0 ∨ r.1.length = 0 then [] else mk "info" ++ be8 (r.1.length + 4) ++ be4 r.2 ++ r.1
+
+/-- since the repair ("fix: CAF strings beyond 16 KiB in total were silently left out of the file"): the buffer is allocated
+    with `strings.storage_used + SF_MAX_STRINGS * 16` bytes; `used` = psf->strings.storage_used -/
+def writeCafInfo (used : Nat) (es : List (Nat × List Byte)) : List Byte := writeCafInfoW (used + SF_MAX_STRINGS * 16) es
+
+/-- before it: `char s [16 * 1024]` -/
+def writeCafInfoOld (es : List (Nat × List Byte)) : List Byte := writeCafInfoW CAF_BUF es
 
 /-- the key/value walk of caf_read_strings over the bytes behind the count -/
 def cafPairs : Nat → List Byte → List (Nat × List Byte)
@@ -186,9 +227,11 @@ def cafPairs : Nat → List Byte → List (Nat × List Byte)
         | some ty => (ty, value) :: cafPairs fuel rest
         | none => cafPairs fuel rest
 
+/-- the `info` case of caf_read_header and caf_read_strings: a string area of more than 100 KiB is not read (it could not
+    pass the header cache) -/
 def readCafInfo (chunk : List Byte) : List (Nat × List Byte) :=
   let size := ofBE ((chunk.drop 4).take 8)
-  if size ≤ 4 then [] else
+  if size ≤ 4 ∨ size - 4 > HEADER_CAP then [] else
   let b := (chunk.drop 16).take (size - 4)
   cafPairs (b.length + 1) b
 
